@@ -54,7 +54,7 @@ POOL3_LABELS = ["zero", "neg1", "p70", "half", "nan", "sabc", "l0", "l123", "dde
 # (the same list is Outcome!NonConsuming)
 INF_POOL = [("rep1", "repeat(1)", "sti"), ("iota0", "iota(0)", "sti")]
 NON_CONSUMING = ["take", "first", "second", "third", "tail", "lazy_map", "lazy_filter", "lazy_zip", "type", "is",
-                 "id", "const", "not", "!!", "!?", "uncons", "uncons?", "enumerate", "zip", "then", "=>"]
+                 "id", "const", "not", "!!", "!?", "uncons", "uncons?", "zip", "then", "=>"]
 
 # excluded builtins: I/O, clock, sleep, process, network, randomness, file system
 # (the same list is Outcome!Excluded; Trace_Outcome rejects a trace whose exclusions differ)
